@@ -20,7 +20,7 @@ RULE = ("(i) all 64 edge subsets of the 4-node topological order x 24 textual or
         "result names, side-effect-only sinks returning None, forward references), several programs per process; (iii) random EEMS models; "
         "each followed by a random history of 0-8 run()/result/metadata/to_string/validate_params steps; distinct by (n, edge count, "
         "styles used, has-sink, has-colliding-strings, history step kinds)")
-REQUIRED_COUNTERS = ["programs_run", "execute_events", "read_events", "history_steps", "reference_values_compared", "flatten_contract_evaluations", "retry_programs", "grown_programs", "api_built_programs", "inside_execute_records_compared", "large_result_programs", "deep_chain_programs", "program_copies_checked", "programs_evaluated_through_their_commands_only"]
+REQUIRED_COUNTERS = ["foreign_reference_programs", "programs_run", "execute_events", "read_events", "history_steps", "reference_values_compared", "flatten_contract_evaluations", "retry_programs", "grown_programs", "api_built_programs", "inside_execute_records_compared", "large_result_programs", "deep_chain_programs", "program_copies_checked", "programs_evaluated_through_their_commands_only"]
 EXHAUSTIVE_NOTE = "thorough tier enumerates all 64 x 24 x 3 four-command programs"
 ASSUMPTIONS = ["a chain of %d direct references must run under the default recursion limit (the pinned tree manages about 330; deeper chains are left to C13: whatever happens there must be an MPilot error)" % 210,
                "programs that fail to run are judged elsewhere (C12-C14) unless the program is valid by construction",
@@ -301,6 +301,10 @@ def cases(ctx):
     # a long chain of direct references (each command reads its predecessor), in a process of its own without any recorder
     for i in range(ctx.n(1, 4)):
         yield {"kind": "chain", "depth": DEEP_CHAIN, "rseed": rng.randrange(10 ** 9), "style": "direct"}
+    # programs built through add_command from argument objects shared with another program, and with command objects that are
+    # not this program's own (another program's command of the same name, a stand-alone finished command)
+    for i in range(ctx.n(40, 2400)):
+        yield {"kind": "foreign", "rseed": rng.randrange(10 ** 9), "variant": i % 4}
     for i in range(ctx.n(250, 12000)):
         m = models.gen_model(rng, n_ops=rng.randint(1, 10), sinks=True, metadata=rng.random() < 0.3, libs="nc" if i % 3 == 0 else "csv")
         m = models.permuted(m, rng)
@@ -435,6 +439,8 @@ def run_case(ctx, case):
         return run_bigdag(ctx, case)
     if case["kind"] == "chain":
         return run_chain(ctx, case)
+    if case["kind"] == "foreign":
+        return run_foreign(ctx, case)
     nodes = case["nodes"]
     names = [nd["name"] for nd in nodes]
     import vprobe
@@ -540,6 +546,73 @@ def run_case(ctx, case):
 
 
 DEEP_CHAIN = 210     # the pinned tree runs chains of about 330 direct references under the default recursion limit
+
+
+def run_foreign(ctx, case):
+    from mpilot.program import Program
+    from mpilot.commands import Command
+    import vprobe
+    rng = random.Random(case["rseed"])
+    n = rng.randint(2, 4)
+    names = rng.sample(["S0", "S1", "Elev", "E", "a", "A", "Slope"], n)
+    ctx.count("programs_run", 2)
+    ctx.count("foreign_reference_programs")
+    ctx.feature(("foreign", case["variant"], n))
+    if case["variant"] in (0, 1):
+        # two programs from the very same list objects (a module-level list of field names)
+        shared = {"L": list(names), "LL": [[names[0]], list(reversed(names))], "A": names[-1]}
+        before = repr(shared)
+        results = []
+        for base in (1, 100):
+            p = Program(libraries=("vprobe",))
+            for k, nm in enumerate(names):
+                p.add_command(p.find_command_class("Src"), nm, {"V": base + k})
+            p.add_command(p.find_command_class("Op"), "C", {"L": shared["L"], "LL": shared["LL"], "A": shared["A"]} if case["variant"] == 0 else {"L": shared["L"]})
+            del vprobe.EXEC_LOG[:]
+            try:
+                p.run()
+            except Exception as e:
+                ctx.fail("shared-argument-lists:valid-program-does-not-run:%s" % type(e).__name__, {"error": str(e)[:200], "program": "second" if base == 100 else "first"})
+                return
+            if sorted(vprobe.EXEC_LOG) != sorted(names + ["C"]):
+                ctx.fail("shared-argument-lists:execute-ran-not-once-per-command", {"executed": list(vprobe.EXEC_LOG), "program": "second" if base == 100 else "first"})
+                return
+            src = {nm: ("src", nm, base + k) for k, nm in enumerate(names)}
+            kw = {"L": tuple(src[x] for x in shared_names(names, "L"))}
+            if case["variant"] == 0:
+                kw.update({"LL": ((src[names[0]],), tuple(src[x] for x in reversed(names))), "A": src[names[-1]]})
+            want = ("op", "C", tuple((k_, kw[k_]) for k_ in sorted(kw)))
+            ctx.count("reference_values_compared")
+            if p.commands["C"]._result != want:
+                ctx.fail("shared-argument-lists:consumer-fed-by-another-program", {"program": "second" if base == 100 else "first", "got": repr(p.commands["C"]._result)[:300], "want": repr(want)[:300]})
+                return
+        if repr(shared) != before:
+            ctx.fail("shared-argument-lists:caller's-lists-altered", {"before": before, "after": repr(shared)[:300]})
+        return
+    # command objects that are not the consuming program's own
+    other = Program(libraries=("vprobe",))
+    other.add_command(other.find_command_class("Src"), names[0], {"V": 987654})
+    foreign = other.commands[names[0]]
+    lone = Command(names[1] if case["variant"] == 3 else "Lone", [], program=None)
+    lone.is_finished, lone._result = True, ("lone", 42)
+    p = Program(libraries=("vprobe",))
+    for k, nm in enumerate(names):
+        p.add_command(p.find_command_class("Src"), nm, {"V": 5 + k})
+    try:
+        p.add_command(p.find_command_class("Op"), "C", {"A": foreign, "L": [lone, foreign, names[0]], "B": lone})
+        p.run()
+    except Exception as e:
+        ctx.fail("foreign-command-object:valid-program-does-not-run:%s" % type(e).__name__, {"error": str(e)[:200], "lone_named_like_a_command_of_the_program": case["variant"] == 3})
+        return
+    f, l_, own = ("src", names[0], 987654), ("lone", 42), ("src", names[0], 5)
+    want = ("op", "C", (("A", f), ("B", l_), ("L", (l_, f, own))))
+    ctx.count("reference_values_compared")
+    if p.commands["C"]._result != want:
+        ctx.fail("foreign-command-object:consumer-fed-by-a-namesake-instead-of-the-object-given", {"got": repr(p.commands["C"]._result)[:300], "want": repr(want)[:300]})
+
+
+def shared_names(names, key):
+    return list(names)
 
 
 def run_bigdag(ctx, case):
